@@ -1071,7 +1071,7 @@ pub fn generate(ctx: &mut Ctx) {
     corners(ctx, &ts);
 
     // 2. random cases, every algorithm in turn (ten kinds)
-    let per_algo = ctx.budget(100, 250);
+    let per_algo = ctx.budget(100, 800);
     let max_n = 300;
     for _ in 0..per_algo {
         for which in 0..10 {
